@@ -8,7 +8,7 @@ import json, os, re, subprocess, sys, time, hashlib, random
 
 VERIF = os.path.dirname(os.path.dirname(os.path.abspath(__file__)))
 REPO = os.environ.get("AJ_REPO", "/repo")
-LEAN = os.path.join(VERIF, "lean")
+LEAN = os.environ.get("AJ_LEAN_DIR") or os.path.join(VERIF, "lean")
 DRIVER = os.path.join(LEAN, ".lake", "build", "bin", "ajdriver")
 EVIDENCE = os.environ.get("AJ_EVIDENCE_DIR") or os.path.join(VERIF, "evidence")
 REPLAYS = os.environ.get("AJ_REPLAY_DIR") or os.path.join(VERIF, "replays")
